@@ -17,5 +17,6 @@ for f in prog.fns.values():
     out[f.id] = facts.fingerprint(f)
 p = os.path.join(os.path.dirname(os.path.dirname(os.path.abspath(__file__))), "tables", "fn_fingerprints.json")
 with open(p, "w") as fh:
-    json.dump({"comment": "identity of every reviewed workspace function modulo its name (see tools/gen_fingerprints.py)", "fns": out}, fh, indent=0, sort_keys=True)
+    adts = {a["id"]: [[v["name"], [[fd["name"], fd["ty"]] for fd in v["fields"]]] for v in a["variants"]] for a in prog.adts.values() if a.get("crate", "").startswith("ast_grep")}
+    json.dump({"comment": "identity of every reviewed workspace function modulo its name, and the fields of every workspace ADT (see tools/gen_fingerprints.py)", "fns": out, "adts": adts}, fh, indent=0, sort_keys=True)
 print(len(out), "fingerprints")
